@@ -101,15 +101,15 @@ fn main() {
                 if let Some(pc) = cfg.pchunk { b.partial_chunk_size(pc).map_err(|e| e.to_string())?; }
                 if let Some(cp) = cfg.comp { b.compression(cp); }
                 if cfg.text { b.sign_text(); }
-                for s in &cfg.signers { b.sign(&pool[*s].primary_key, Password::empty(), pool[*s].primary_key.hash_alg()); }
+                // (directed configurations rotate the hash: the one-pass packet of a v6 signer is 56 / 64 / 72 octets long with it)
+                for (si, s) in cfg.signers.iter().enumerate() { let h = if directed && pool[*s].version() == KeyVersion::V6 && !matches!(pool[*s].primary_key.algorithm(), pgp::crypto::public_key::PublicKeyAlgorithm::Ed448) { [HashAlgorithm::Sha256, HashAlgorithm::Sha384, HashAlgorithm::Sha512][(n + si) % 3] } else { pool[*s].primary_key.hash_alg() }; b.sign(&pool[*s].primary_key, Password::empty(), h); }
             }}; }
             macro_rules! finish { ($b:expr) => {{
                 if cfg.armor { $b.to_armored_string(Rng::new(seed ^ 9), ArmorOptions { headers: None, include_checksum: cfg.armor_ck }).map(|s| s.into_bytes()).map_err(|e| e.to_string()) } else { $b.to_vec(Rng::new(seed ^ 9)).map_err(|e| e.to_string()) }
             }}; }
             let built: Result<Result<Vec<u8>, String>, String> = guarded(|| -> Result<Vec<u8>, String> {
-                let src: Box<dyn Read> = if cfg.reader_source { Box::new(SchedReader::new(payload.clone(), Rng::new(seed).composition(payload.len()))) } else { Box::new(std::io::Cursor::new(payload.clone())) };
-                let base = MessageBuilder::from_reader(cfg.name.clone(), src);
-                match cfg.enc {
+                // a source of unknown length (from_reader: streamed, partial lengths) or of known length (from_bytes: fixed length)
+                macro_rules! build_with { ($base:expr) => {{ let base = $base; match cfg.enc {
                     0 => { let mut b = base; common!(b); finish!(b) }
                     1 => {
                         let mut b = base.seipd_v1(Rng::new(seed ^ 1), cfg.sym); common!(b);
@@ -124,7 +124,9 @@ fn main() {
                         for k in &cfg.keys { if cfg.anon { b.encrypt_to_key_anonymous(Rng::new(seed ^ 30), &pubs[*k].public_subkeys[0].key).map_err(|e| e.to_string())?; } else { b.encrypt_to_key(Rng::new(seed ^ 30), &pubs[*k].public_subkeys[0].key).map_err(|e| e.to_string())?; } }
                         finish!(b)
                     }
-                }
+                } }}; }
+                if cfg.reader_source { build_with!(MessageBuilder::from_reader(cfg.name.clone(), SchedReader::new(payload.clone(), Rng::new(seed).composition(payload.len())))) }
+                else { build_with!(MessageBuilder::from_bytes(cfg.name.clone(), payload.clone())) }
             });
             let cfgs = cfg_string(&cfg);
             let rp0 = vec!["roundtrip".to_string(), cfgs.clone(), n.to_string(), seed.to_string()];
@@ -211,7 +213,8 @@ fn main() {
                 cx.out.case("read", &[parts.join(";"), hx(&msg)], &rp0, &format!("OK {}", hx(&payload)), None, &format!("model-{cls}"));
                 // the writing side as a machine: one-pass packets, streamed literal packet, signatures -- the model's staged
                 // producer (Msg/SignGen.v over Frame/PartialWriter.v) must emit exactly these octets
-                if cfg.enc == 0 && cfg.comp.is_none() && !cfg.armor {
+                // (a source of unknown length: from_bytes knows the length and writes one fixed-length literal packet)
+                if cfg.enc == 0 && cfg.comp.is_none() && !cfg.armor && cfg.reader_source {
                     if let Some(pc) = cfg.pchunk { if msg.len() <= 40_000 {
                         cx.out.case("signgen", &[pc.trailing_zeros().to_string(), hx(&payload), cfg.signers.len().to_string(), hx(&msg)], &rp0, &hx(&msg), None, "model-signgen");
                     } }
